@@ -153,7 +153,7 @@ class C13(Prop):
             'from a hostile dictionary (every identifier the expansion introduces, prelude / core type, trait and variant names, '
             'raw keywords) for the type, its lifetime / type / const parameters, fields and variants; every renamed program must '
             'compile in a plain scope, in a scope with a glob import shadowing the prelude names, and under #![no_std] '
-            '(metadata-only), and compute what the base program computes (==, partial_cmp, cmp, hash feed, clone, default on '
+            '(metadata-only) and when declared through a macro_rules! macro, and compute what the base program computes (==, partial_cmp, cmp, hash feed, clone, default on '
             'enumerated values); non-trivial = every renamed case')
 
     def n_ren(self, tier):
@@ -237,10 +237,13 @@ class C13(Prop):
 
     def oracle(self, tier, rng, suspicious):
         results = self.l1_results or R.run_cases(self.cases(tier, rng))
-        plain, shadow, nostd = [], [], []
+        plain, shadow, nostd, viam = [], [], [], []
         for r in results:
             head = ('#[::derive_ex::derive_ex(%s)]\n' % r.attr) if r.mode == 'A' else '#[derive(::derive_ex::Ex)]\n'
             plain.append(l2.Module(r.cid, head + r.item + '\n' + self.run_body(r.cid, r.meta), r))
+            if r.meta['ri'] == 1:
+                # hygiene proper: the item declared through a macro_rules! macro that writes the attribute
+                viam.append(l2.Module(r.cid, l2.via_macro(head, r.item) + 'pub fn run() {}', r))
             if r.meta['ri'] != 0:
                 shadow.append(l2.Module(r.cid, '#[allow(unused_imports)] use super::shadow::*;\n' + head + r.item + '\npub fn run() {}', r))
                 nostd.append(l2.Module(r.cid, head + r.item + '\npub fn run() {}', r))
@@ -248,9 +251,11 @@ class C13(Prop):
         pb = [('c13p_%d' % k, plain[k::nb]) for k in range(nb)]
         sb = [('c13s_%d' % k, shadow[k::nb]) for k in range(nb)]
         nbat = [('c13n_%d' % k, nostd[k::nb]) for k in range(nb)]
+        vb = [('c13m_%d' % k, viam[k::nb]) for k in range(nb)]
         allow = '#![allow(dead_code, unused_variables, unused_imports, non_camel_case_types, non_snake_case, non_upper_case_globals, unused_macros)]\n'
         exes = l2.compile_parallel(pb, prelude=PRELUDE, crate_attrs=allow)
         l2.compile_parallel(sb, prelude=SHADOW + LQ, check_only=True, crate_attrs=allow)
+        l2.compile_parallel(vb, prelude=PRELUDE, check_only=True, crate_attrs=allow)
         l2.compile_parallel(nbat, prelude=LQ, check_only=True, crate_attrs='#![no_std]\n' + allow)
         obs = {}
         for name, exe in exes.items():
@@ -264,7 +269,8 @@ class C13(Prop):
         def fail(r, scope, exp, got):
             cls = 'const-parameter-named-like-a-generated-binder' if r.meta['const_name'] else 'renaming-changes-the-program'
             failures.append(dict(**{'class': cls, 'mode': scope}, input=r.input_text(), expected=exp, observed=got))
-        for group, scope in ((plain, 'plain scope'), (shadow, 'prelude shadowed'), (nostd, 'no_std')):
+        for group, scope in ((plain, 'plain scope'), (shadow, 'prelude shadowed'), (nostd, 'no_std'),
+                             (viam, 'declared through macro_rules!')):
             for mo in group:
                 r = mo.meta
                 if r.meta['ri'] == 0:
@@ -283,10 +289,10 @@ class C13(Prop):
                 validated += 1
                 if len(samples) < 3 and scope == 'prelude shadowed':
                     samples.append(dict(scope=scope, input=r.input_text()[:300]))
-        for name, _ in pb + sb + nbat:
+        for name, _ in pb + sb + nbat + vb:
             l2.cleanup(name)
-        return dict(evaluations=len(plain) + len(shadow) + len(nostd), validated=validated,
-                    programs=len(plain) + len(shadow) + len(nostd), failures=failures, samples=samples)
+        return dict(evaluations=len(plain) + len(shadow) + len(nostd) + len(viam), validated=validated,
+                    programs=len(plain) + len(shadow) + len(nostd) + len(viam), failures=failures, samples=samples)
 
 
 PROP = C13()
